@@ -50,7 +50,9 @@ Units(style) ==
   {<<"plain", <<97>>, <<97>>>>, <<"space", <<32>>, <<32>>>>, <<"percent", <<37>>, <<37>>>>,
    <<"nonascii", <<233>>, <<233>>>>, <<"otherquote", <<o>>, <<o>>>>, <<"dot", <<DOT>>, <<DOT>>>>,
    \* line ends inside a literal are characters of the value like any other (LF, and the two-character CR LF)
-   <<"newline", <<10>>, <<10>>>>, <<"crlf", <<13, 10>>, <<13, 10>>>>}
+   <<"newline", <<10>>, <<10>>>>, <<"crlf", <<13, 10>>, <<13, 10>>>>,
+   \* a long run of plain characters: nothing in a scanner may depend on how long a literal is
+   <<"long", [i \in 1..300 |-> 97], [i \in 1..300 |-> 97]>>}
   \cup (IF HasDbl(style) THEN {<<"doubled", <<q, q>>, <<q>>>>} ELSE {})
   \cup (IF HasBS(style) THEN {<<"bs-quote", <<BS, q>>, <<q>>>>, <<"bs-otherquote", <<BS, o>>, <<o>>>>,
                               <<"bs-bs", <<BS, BS>>, <<BS>>>>}
@@ -100,7 +102,9 @@ PartClasses ==
    <<"digits-first", <<49, 97>>, TRUE>>, <<"dollar", <<97, 36, 98>>, TRUE>>,
    <<"space", <<97, 32, 98>>, FALSE>>, <<"dot", <<97, 46, 98>>, FALSE>>, <<"nonascii", <<233, 97>>, FALSE>>,
    <<"quote", <<97, 39, 98>>, FALSE>>, <<"dash", <<97, 45, 98>>, FALSE>>,
-   <<"digits-only", <<48, 48, 55>>, FALSE>>, <<"one-digit", <<53>>, FALSE>>}
+   <<"digits-only", <<48, 48, 55>>, FALSE>>, <<"one-digit", <<53>>, FALSE>>,
+   \* long names (past the 63 / 64 / 128 character limits of the usual engines): a name is not cut at any length
+   <<"long65", [i \in 1..65 |-> 97 + (i % 3)], TRUE>>, <<"long300", [i \in 1..300 |-> 97 + (i % 5)], TRUE>>}
 
 \* written form of a part: bare or back-quoted
 Written(p, quoted) == IF quoted THEN <<BQ>> \o p[2] \o <<BQ>> ELSE p[2]
@@ -133,4 +137,66 @@ VarDenotes(text, sys, name) == LET r == ScanVar(text) IN r.ok /\ r.end = Len(tex
 VarUnits(q) == IF q = 0 THEN {<<97>>, <<DOT>>, <<36>>, <<95>>, <<65>>}
                ELSE {<<97>>, <<DOT>>, <<32>>, <<37>>, <<233>>, <<45>>} \cup {<<o>> : o \in {SQ, DQ, BQ} \ {q}}
 VarText(q, sys, name) == (IF sys THEN <<64, 64>> ELSE <<64>>) \o (IF q = 0 THEN name ELSE <<q>> \o name \o <<q>>)
+
+----------------------------------------------------------------------------
+(* identifier paths as the TARGET engines read them (the SQLAlchemy renderer's output):                        *)
+(*   t_bq  MySQL       `...`  a back-quote inside is doubled                                                   *)
+(*   t_dq  PostgreSQL / SQLite / Oracle  "..."  a double quote inside is doubled                               *)
+(*   t_br  SQL Server  [...]  a closing bracket inside is doubled                                              *)
+(* a bare part is a run of letters, digits, _ and $ that does not start with a digit.  Nothing else is special  *)
+(* inside the delimiters: a percent sign, a colon, a backslash are characters of the name.                      *)
+TOpen(style) == IF style = "t_bq" THEN BQ ELSE IF style = "t_dq" THEN DQ ELSE 91
+TClose(style) == IF style = "t_bq" THEN BQ ELSE IF style = "t_dq" THEN DQ ELSE 93
+IsDigit(c) == c >= 48 /\ c <= 57
+RECURSIVE TPath(_, _, _, _, _, _)
+\* mode: "start" | "word" | "q" inside delimiters | "after" a closing delimiter; returns the position after the path
+TPath(style, text, i, mode, cur, parts) ==
+  IF i > Len(text)
+  THEN (IF mode \in {"after", "word"} THEN [ok |-> TRUE, parts |-> Append(parts, cur), end |-> i]
+        ELSE [ok |-> FALSE, parts |-> parts, end |-> i])
+  ELSE LET c == text[i] IN
+    CASE mode = "start" ->
+           (IF c = TOpen(style) THEN TPath(style, text, i + 1, "q", <<>>, parts)
+            ELSE IF IsWordChar(c) /\ ~IsDigit(c) THEN TPath(style, text, i + 1, "word", <<c>>, parts)
+            ELSE [ok |-> FALSE, parts |-> parts, end |-> i])
+      [] mode = "word" ->
+           (IF c = DOT THEN TPath(style, text, i + 1, "start", <<>>, Append(parts, cur))
+            ELSE IF IsWordChar(c) THEN TPath(style, text, i + 1, "word", Append(cur, c), parts)
+            ELSE [ok |-> TRUE, parts |-> Append(parts, cur), end |-> i])
+      [] mode = "q" ->
+           (IF c = TClose(style)
+            THEN (IF i + 1 <= Len(text) /\ text[i + 1] = c THEN TPath(style, text, i + 2, "q", Append(cur, c), parts)
+                  ELSE IF cur = <<>> THEN [ok |-> FALSE, parts |-> parts, end |-> i]
+                  ELSE TPath(style, text, i + 1, "after", cur, parts))
+            ELSE TPath(style, text, i + 1, "q", Append(cur, c), parts))
+      [] mode = "after" ->
+           (IF c = DOT THEN TPath(style, text, i + 1, "start", <<>>, Append(parts, cur))
+            ELSE [ok |-> TRUE, parts |-> Append(parts, cur), end |-> i])
+
+\* written form of a part for a target: bare, or delimited with the closing delimiter doubled
+RECURSIVE DoubleClose(_, _)
+DoubleClose(style, w) == IF w = <<>> THEN <<>>
+                         ELSE (IF Head(w) = TClose(style) THEN <<Head(w), Head(w)>> ELSE <<Head(w)>>) \o DoubleClose(style, Tail(w))
+TWritten(style, w, quoted) == IF quoted THEN <<TOpen(style)>> \o DoubleClose(style, w) \o <<TClose(style)>> ELSE w
+TBareOk(w) == w # <<>> /\ ~IsDigit(w[1]) /\ \A j \in 1..Len(w) : IsWordChar(w[j])
+\* characters a name may be made of in the enumerated cases: a b A _ $ 1 space . % " ` [ ] ' : \ e-acute
+TNameChars == {97, 98, 65, 95, 36, 49, 32, 46, 37, 34, 96, 91, 93, 39, 58, 92, 233}
+
+(* a rendered statement as a sequence of segments: a literal word (keyword / punctuation) or an identifier path;  *)
+(* white space between segments is free.  The text must consist of exactly these segments, each path denoting     *)
+(* exactly the given parts -- whatever characters the names are made of.                                          *)
+IsBlank(c) == c \in {32, 9, 10, 13}
+RECURSIVE SkipBlank(_, _)
+SkipBlank(text, i) == IF i <= Len(text) /\ IsBlank(text[i]) THEN SkipBlank(text, i + 1) ELSE i
+HasAt(text, i, w) == i + Len(w) - 1 <= Len(text) /\ \A j \in 1..Len(w) : text[i + j - 1] = w[j]
+RECURSIVE MatchSegs(_, _, _, _)
+MatchSegs(style, text, i0, segs) ==
+  LET i == SkipBlank(text, i0) IN
+  IF segs = <<>> THEN (IF i > Len(text) THEN "ok" ELSE "trailing-text")
+  ELSE LET g == Head(segs) IN
+       IF g.t = "lit" THEN (IF HasAt(text, i, g.w) THEN MatchSegs(style, text, i + Len(g.w), Tail(segs)) ELSE "structure")
+       ELSE LET r == TPath(style, text, i, "start", <<>>, <<>>) IN
+            IF ~r.ok THEN "not-a-path"
+            ELSE IF r.parts # g.parts THEN "wrong-parts"
+            ELSE MatchSegs(style, text, r.end, Tail(segs))
 =============================================================================
